@@ -29,16 +29,17 @@ def run(tier, seed, replay=None):
                                       "-trace-limit", "9000" if quick else "60000"], timeout=3000)
         if res["counters"].get("framer_vectors_direct", 0) != nvec and not res["violations"]:
             raise vlib.Inconclusive("harness replayed %s of %d framer vectors: %s" % (res["counters"].get("framer_vectors_direct"), nvec, res.get("inconclusive")))
-        tv = dplib.validate_trace(pid, wd, [trace])
+        tv = dplib.validate_trace(pid, wd, [trace], allow_empty=bool(res["violations"]))
         return fr, nvec, res, tv
 
     def design():
-        rs = [("DataPlane.tla", c, vlib.tlc_must_pass("DataPlaneMC", c, wd, workers=6, timeout=3000)) for c in dcfgs]
-        wit = vlib.witnesses("DataPlaneMC", "DataPlane_wit.cfg", ["W_NoDelivery", "W_NoPong", "W_NoTransitNoRoute"], wd, workers=2, timeout=900)
-        wit += vlib.witnesses("Framer", "Framer_quick.cfg", ["W_NoSplitHeader", "W_NoSplitBody", "W_NoCoalesced", "W_NoEmptyFrame"], wd, workers=2, timeout=600)
-        return rs, wit
+        return dplib.design_runs(dcfgs, wd)
 
-    (fr, nvec, res, tv), (rs, wit) = dplib.parallel(impl, design)
+    def wits():
+        return dplib.witnesses([("DataPlaneMC", "DataPlane_wit.cfg", ["W_NoDelivery", "W_NoTransitNoRoute"]),
+                                ("Framer", "Framer_quick.cfg", ["W_NoSplitHeader", "W_NoSplitBody", "W_NoCoalesced"])], wd)
+
+    (fr, nvec, res, tv), rs, wit = dplib.parallel(impl, design, wits)
     dplib.apply(v, res, tv)
     c = res["counters"]
     for k in ("scenarios_memnet", "scenarios_tcp", "scenarios_rechunk-tlc", "scenarios_rechunk-random", "relay_header_splits", "relay_body_splits", "relay_coalesced"):
@@ -47,15 +48,15 @@ def run(tier, seed, replay=None):
     rs = rs + [("Framer.tla", fcfg, fr)]
     cov = {
         "states": sum(r.distinct for _, _, r in rs), "transitions": sum(r.generated for _, _, r in rs),
-        "traces_validated_against_impl": tv["segments"],
+        "traces_validated_against_impl": tv["segments"] if tv else 0,
         "evaluations": res["evaluations"], "distinct_nontrivial": res["distinct"],
         "rule": "evaluations = Framer vectors replayed + datagrams observed at sockets; a Framer vector (frames of 0..3 bytes over {0,1}, "
                 "one chunking of the stream) is enumerated completely by TLC and is distinct by (frames, chunking); a datagram case is distinct by "
                 "(link kind, payload length, destination node+service, source node+service); payload lengths {0,1,35,36,37,255,256,1199,1200,16383,16384}+random, "
                 "bytes all-zero/all-0xFF/random; node ids from the classes 1 byte / 200 bytes / UTF-8 / ':'+punctuation / case variants; service names of 1..8 "
                 "bytes incl. >=0x80, prefixes of each other, case variants, the same name bound on two nodes; every socket of every node has a reader",
-        "samples": res["samples"][:4] + [tv["sample"]], "exhaustive": False,
-        "framer_vectors": nvec, "trace_lines": tv["lines"], "trace_events": tv["events"], "counters": c, "witnesses": wit,
+        "samples": (res.get("samples") or [])[:4] + ([tv["sample"]] if tv else []), "exhaustive": False,
+        "framer_vectors": nvec, "trace_lines": tv["lines"] if tv else 0, "trace_events": tv["events"] if tv else {}, "counters": c, "witnesses": wit,
         "tlc": dplib.tlc_summary(rs),
     }
     return v.finish("model_checking", cov, assumptions=[
